@@ -4,6 +4,7 @@ import (
 	"bytes"
 	"encoding"
 	"fmt"
+	"reflect"
 	"unicode"
 	"unicode/utf16"
 	"unicode/utf8"
@@ -68,9 +69,15 @@ func (d *unmarshalTextDecoder) DecodeStream(s *Stream, depth int64, p unsafe.Poi
 				Type:   runtime.RType2Type(d.typ),
 				Offset: s.totalOffset(),
 			}
+		case 't', 'f':
+			return &errors.UnmarshalTypeError{
+				Value:  "bool",
+				Type:   runtime.RType2Type(d.typ),
+				Offset: s.totalOffset(),
+			}
 		case 'n':
 			if bytes.Equal(src, nullbytes) {
-				*(*unsafe.Pointer)(p) = nil
+				d.storeNull(p)
 				return nil
 			}
 		}
@@ -90,6 +97,16 @@ func (d *unmarshalTextDecoder) DecodeStream(s *Stream, depth int64, p unsafe.Poi
 		return err
 	}
 	return nil
+}
+
+// storeNull is what null does to a TextUnmarshaler: nothing, unless the type itself can be nil
+// (then it becomes nil, all of it — not just its first word).
+func (d *unmarshalTextDecoder) storeNull(p unsafe.Pointer) {
+	switch d.typ.Kind() {
+	case reflect.Ptr, reflect.Map, reflect.Slice, reflect.Interface:
+		typ := runtime.RType2Type(d.typ)
+		reflect.NewAt(typ, p).Elem().Set(reflect.Zero(typ))
+	}
 }
 
 func (d *unmarshalTextDecoder) Decode(ctx *RuntimeContext, cursor, depth int64, p unsafe.Pointer) (int64, error) {
@@ -121,9 +138,15 @@ func (d *unmarshalTextDecoder) Decode(ctx *RuntimeContext, cursor, depth int64, 
 				Type:   runtime.RType2Type(d.typ),
 				Offset: start,
 			}
+		case 't', 'f':
+			return 0, &errors.UnmarshalTypeError{
+				Value:  "bool",
+				Type:   runtime.RType2Type(d.typ),
+				Offset: start,
+			}
 		case 'n':
 			if bytes.Equal(src, nullbytes) {
-				*(*unsafe.Pointer)(p) = nil
+				d.storeNull(p)
 				return end, nil
 			}
 		}
